@@ -1209,6 +1209,15 @@ def _b_list(eng, args, kwargs):
         p.items, p.kinds, p.tup, p.n = None, ["int"], False, n
         p.cols = [z3.Lambda([i], to_z3(g(Sym(i, "int")), "int"))]
         return p
+    if hasattr(v, "__pyvc_iter_seq__"):  # an extension container that can be iterated (a set of ints: its ghost enumeration): the items in iteration order
+        n, g = v.__pyvc_iter_seq__(eng)
+        i = z3.Int(fresh_name("li"))
+        x = g(Sym(i, "int"))
+        if kind_of(x) is not None:
+            p = PList()
+            p.items, p.kinds, p.tup, p.n = None, [kind_of(x)], False, n
+            p.cols = [z3.Lambda([i], to_z3(x, kind_of(x)))]
+            return p
     return PList(iterate_concrete(eng, v))
 
 
